@@ -1,17 +1,22 @@
 #!/bin/bash
-# tools/mut.sh <prop> <repo-relative file> <python-regex> <replacement> [check args]: apply a one-off mutation to /repo,
-# run the check, revert. For developing contracts only (never part of a registered check).
+# tools/mut.sh <prop> <repo-relative file> <python-regex> <replacement> [check args]
+# Development aid (never part of a registered check): applies a one-off mutation to a SCRATCH copy of /repo/libs
+# (never to /repo itself), runs ./check against the scratch tree (VX_REPO), prints failed obligations, cleans up.
+# The mutation must apply exactly once.  Use --show to also print the lifted C of the affected unit.
 prop=$1; f=$2; pat=$3; rep=$4; shift 4
-cd /repo || exit 9
-python3 - "$f" "$pat" "$rep" <<'PY' || { echo "MUTATION DID NOT APPLY"; exit 9; }
+S=$(mktemp -d /tmp/vxmut.XXXXXX)
+trap 'rm -rf "$S"' EXIT
+cp -r /repo/libs "$S/libs"; ln -s /repo/_build "$S/_build"
+python3 - "$S/$f" "$pat" "$rep" <<'PY' || { echo "MUTATION DID NOT APPLY (regex must match exactly once)"; exit 9; }
 import re,sys
 f,pat,rep=sys.argv[1:4]
 s=open(f).read()
-t,n=re.subn(pat,rep,s,count=1,flags=re.S)
-if n!=1 or t==s: sys.exit(1)
+n=len(re.findall(pat,s,flags=re.S))
+if n!=1: print("matches:",n); sys.exit(1)
+t=re.sub(pat,rep,s,count=1,flags=re.S)
+if t==s: sys.exit(1)
 open(f,'w').write(t)
 PY
-git diff --stat | tail -1
-cd /verif && ./check $prop "$@" | grep -E "FAILED|VIOLATION|UNDECIDED|undecided" | cut -c1-260
+(cd "$S" && diff -u /repo/$f $f | sed -n 3,12p)
+cd /verif && VX_REPO=$S VX_OUTDIR=$S/out VX_EVIDENCE_DIR=$S/ev VX_JOBS=${VX_JOBS:-6} ./check $prop "$@" | grep -E "FAILED|VIOLATION|UNDECIDED|undecided|KNOWN" | cut -c1-300
 echo "exit=${PIPESTATUS[0]}"
-git -C /repo checkout -- "$f"
